@@ -253,6 +253,152 @@ fn probe_clear(q: P2, radius: f64) -> bool {
     (along - rin).abs() > radius * 1.5
 }
 
+
+// ------------------------------------------------------------------ C16: second-difference sweeps
+
+/// One smooth curve in the face plane (inside ONE of the ten triangles of the face, or inside the
+/// reflected margin beyond one edge), walked in n equal steps of length h; every point is unprojected and
+/// the chord lengths d_i between consecutive images are compared: |d_(i+1) - d_i| must stay below `tol`.
+/// On a smooth map the difference is h^2 |f''| (1e-15 for h = 4e-8) plus rounding (3e-16); a jump of the
+/// map by delta, or a band of width delta that is collapsed or stretched, shows as a difference of delta.
+/// A region of diameter L straddling such a defect has a relative area error of about delta / L. Positions
+/// are only defined to 1e-12 rad (C15), so the smallest regions for which the 1e-4 bound can be meant are
+/// about 1e-8 across; the tolerance is therefore delta <= 1e-12. (The unchanged tree has one such locus: a
+/// jump of 1.03e-13 rad on the circle of planar radius 2.33e-3 around every face centre, where safe_acos
+/// switches to its series; it is within the tolerance and is reported as worst_second_difference.)
+pub struct Sweep {
+    pub face: usize,
+    pub from: P2,
+    pub to: P2,
+    pub arc: bool, // false: straight segment from..to; true: circular arc around the origin from the polar point `from` = (rho, a0) to (rho, a1 = to[1])
+}
+impl Sweep {
+    fn point(&self, t: f64) -> P2 {
+        if self.arc {
+            let a = self.from[1] + t * (self.to[1] - self.from[1]);
+            [self.from[0] * a.cos(), self.from[0] * a.sin()]
+        } else {
+            [self.from[0] + t * (self.to[0] - self.from[0]), self.from[1] + t * (self.to[1] - self.from[1])]
+        }
+    }
+    fn length(&self) -> f64 {
+        if self.arc {
+            (self.from[0] * (self.to[1] - self.from[1])).abs()
+        } else {
+            ((self.to[0] - self.from[0]).powi(2) + (self.to[1] - self.from[1]).powi(2)).sqrt()
+        }
+    }
+    pub fn json(&self) -> Value {
+        json!({"kind": "sweep", "face": self.face, "from": [self.from[0], self.from[1]], "to": [self.to[0], self.to[1]], "arc": self.arc})
+    }
+}
+
+pub const SWEEP_TOL: f64 = 1e-12;
+
+/// returns (steps, worst |d_(i+1) - d_i|, violations)
+pub fn run_sweep(sw: &Sweep, h: f64, window: Option<(f64, f64)>) -> (u64, f64, Vec<Viol>) {
+    let n = (sw.length() / h).ceil().max(4.0) as u64;
+    let (t0, t1) = window.unwrap_or((0.0, 1.0));
+    let i0 = (t0 * n as f64).floor() as u64;
+    let i1 = ((t1 * n as f64).ceil() as u64).min(n);
+    let chunk = 1u64 << 16;
+    let chunks: Vec<u64> = (i0..i1).step_by(chunk as usize).collect();
+    let res: Vec<(f64, Option<Viol>)> = chunks
+        .par_iter()
+        .map(|&c0| {
+            let c1 = (c0 + chunk).min(i1);
+            let mut worst = 0.0f64;
+            // two samples before the chunk so that differences across chunk borders are covered
+            let start = c0.saturating_sub(2).max(i0);
+            let mut prev: Option<V3> = None;
+            let mut prev_d: Option<f64> = None;
+            for i in start..=c1 {
+                let t = i as f64 / n as f64;
+                let q = sw.point(t);
+                let v = match subj::inverse(q, sw.face as u8) {
+                    Ok(v) => v,
+                    Err(e) => {
+                        let mut case = sw.json();
+                        case["t"] = json!(t);
+                        case["h"] = json!(h);
+                        return (worst, Some(viol("C16/inverse-error", e, case)));
+                    }
+                };
+                if let Some(p) = prev {
+                    let d = rg::norm(rg::sub(v, p));
+                    if let Some(pd) = prev_d {
+                        let dd = (d - pd).abs();
+                        worst = worst.max(dd);
+                        if !(dd <= SWEEP_TOL) {
+                            let mut case = sw.json();
+                            case["t"] = json!(t);
+                            case["h"] = json!(h);
+                            return (
+                                worst,
+                                Some(viol(
+                                    "C16/step-anomaly",
+                                    format!("walking the face plane in steps of {:.1e}, the unprojected step length changes from {:.6e} to {:.6e} at planar point ({}, {}) of face {}: the map jumps, or collapses / stretches a band, by {:.3e} (a region of that size around it is off by 100 % in area)", h, pd, d, q[0], q[1], sw.face, dd),
+                                    case,
+                                )),
+                            );
+                        }
+                    }
+                    prev_d = Some(d);
+                }
+                prev = Some(v);
+            }
+            (worst, None)
+        })
+        .collect();
+    let mut worst = 0.0f64;
+    let mut out = Vec::new();
+    for (w, v) in res {
+        worst = worst.max(w);
+        if out.is_empty() {
+            out.extend(v);
+        }
+    }
+    (i1 - i0, worst, out)
+}
+
+/// the sweep catalogue: radial rays and arcs inside single triangles, and rays in the reflected margin
+pub fn sweeps(tier: &str) -> Vec<Sweep> {
+    let rin = geo::face_inradius();
+    let mut v = Vec::new();
+    let faces: Vec<usize> = if tier == "quick" { vec![3] } else { vec![0, 3, 7, 10] };
+    for &face in &faces {
+        for sector in 0..10 {
+            let angs: &[f64] = if tier == "quick" { &[13.0] } else { &[4.0, 13.0, 22.0, 31.0] };
+            for &da in angs {
+                let a = (36.0 * sector as f64 + da) * rg::DEG;
+                // distance to the face edge along this direction
+                let k2 = (a / (72.0 * rg::DEG)).round();
+                let rho_edge = rin / (a - k2 * 72.0 * rg::DEG).cos();
+                let dir = [a.cos(), a.sin()];
+                v.push(Sweep { face, from: [2e-3 * dir[0], 2e-3 * dir[1]], to: [(rho_edge - 1e-3) * dir[0], (rho_edge - 1e-3) * dir[1]], arc: false });
+                // margin beyond the edge (reflected triangle): a short stretch
+                if da > 10.0 && da < 26.0 || tier != "quick" {
+                    let lim = rho_edge * 1.04;
+                    v.push(Sweep { face, from: [(rho_edge + 1e-3) * dir[0], (rho_edge + 1e-3) * dir[1]], to: [lim * dir[0], lim * dir[1]], arc: false });
+                }
+            }
+            // arcs across the triangle at several radii
+            let rhos: &[f64] = if tier == "quick" { &[0.31] } else { &[0.05, 0.17, 0.31, 0.44, 0.52] };
+            for &rho in rhos {
+                let a0 = (36.0 * sector as f64 + 0.7) * rg::DEG;
+                let a1 = (36.0 * sector as f64 + 35.3) * rg::DEG;
+                // stay inside the face: clip the arc where it would cross the edge
+                let k2 = (a0 / (72.0 * rg::DEG)).round();
+                let worst_along = rho * ((a0 - k2 * 72.0 * rg::DEG).cos()).max((a1 - k2 * 72.0 * rg::DEG).cos());
+                if worst_along < rin - 1e-3 {
+                    v.push(Sweep { face, from: [rho, a0], to: [rho, a1], arc: true });
+                }
+            }
+        }
+    }
+    v
+}
+
 pub fn run_c16(tier: &str) -> Report {
     let mut rep = Report::new("exploration");
     let expected = geo::area_scale();
@@ -339,9 +485,46 @@ pub fn run_c16(tier: &str) -> Report {
             .collect();
         rep.sink.extend(vs);
     }
-    rep.set("evaluations", json!(evals.load(Ordering::Relaxed)));
+    // second-difference sweeps
+    let h = if tier == "quick" { 1e-7 } else { 2e-8 };
+    let sws = sweeps(tier);
+    let mut sweep_steps = 0u64;
+    let mut sweep_worst = 0.0f64;
+    for sw in &sws {
+        let (n, w, v) = run_sweep(sw, h, None);
+        sweep_steps += n;
+        sweep_worst = sweep_worst.max(w);
+        rep.sink.extend(v);
+    }
+    // thorough tier: a few curves at a step of 6e-10, so that any band wider than 1.2e-9 that the map
+    // collapses or displaces while leaving its surroundings untouched contains at least two samples
+    let mut fine = json!(null);
+    if tier != "quick" {
+        let rin = geo::face_inradius();
+        let hf = 6e-10;
+        let mut fsteps = 0u64;
+        let mut fworst = 0.0f64;
+        let mut curves = Vec::new();
+        for (face, deg) in [(3usize, 13.0f64), (0, 85.0), (10, 200.0)] {
+            let a = deg * rg::DEG;
+            let k2 = (a / (72.0 * rg::DEG)).round();
+            let rho_edge = rin / (a - k2 * 72.0 * rg::DEG).cos();
+            curves.push(Sweep { face, from: [2e-3 * a.cos(), 2e-3 * a.sin()], to: [(rho_edge - 1e-3) * a.cos(), (rho_edge - 1e-3) * a.sin()], arc: false });
+        }
+        curves.push(Sweep { face: 7, from: [0.33, (108.0 + 0.7) * rg::DEG], to: [0.33, (108.0 + 35.3) * rg::DEG], arc: true });
+        for sw in &curves {
+            let (n, w, v) = run_sweep(sw, hf, None);
+            fsteps += n;
+            fworst = fworst.max(w);
+            rep.sink.extend(v);
+        }
+        sweep_steps += fsteps;
+        fine = json!({"curves": curves.len(), "step": hf, "steps": fsteps, "worst_second_difference": fworst});
+    }
+    rep.set("sweeps", json!({"curves": sws.len(), "step": h, "steps": sweep_steps, "worst_second_difference": sweep_worst, "tolerance": SWEEP_TOL, "fine": fine}));
+    rep.set("evaluations", json!(evals.load(Ordering::Relaxed) + sweep_steps));
     rep.set("distinct_nontrivial", json!(hard.load(Ordering::Relaxed)));
-    rep.set("rule", json!(format!("planar polar lattice incl. reflected margin (radii up to 1.25 of the edge distance) + points 2 probe radii on either side of the 10 seams and of the 5 face edges, on all 12 faces; equilateral probe triangles (each edge split in {}), circumradii {:?}, rotations {:?}; probes that would straddle a seam, the centre or the edge are skipped ({}); distinct_nontrivial = probes at seam/edge/margin/near-centre points", splits, radii, rots, skipped.load(Ordering::Relaxed))));
+    rep.set("rule", json!(format!("planar polar lattice incl. reflected margin (radii up to 1.25 of the edge distance) + points 2 probe radii on either side of the 10 seams and of the 5 face edges, on all 12 faces; equilateral probe triangles (each edge split in {}), circumradii {:?}, rotations {:?}; probes that would straddle a seam, the centre or the edge are skipped ({}); plus second-difference sweeps: radial rays, arcs and margin rays inside single triangles walked in equal steps, consecutive unprojected step lengths equal within 1e-12 (see key sweeps); distinct_nontrivial = probes at seam/edge/margin/near-centre points", splits, radii, rots, skipped.load(Ordering::Relaxed))));
     rep.set("exhaustive", json!(true));
     rep.set("exhaustive_scope", json!("every probe of the stated finite lattice"));
     rep.set("expected_ratio", json!(expected));
@@ -369,6 +552,18 @@ pub fn replay_c15(case: &Value) -> Vec<Viol> {
     }
 }
 pub fn replay_c16(case: &Value) -> Vec<Viol> {
+    if case["kind"] == "sweep" {
+        let f = |k: &str| {
+            let a = case[k].as_array().unwrap();
+            [a[0].as_f64().unwrap(), a[1].as_f64().unwrap()]
+        };
+        let sw = Sweep { face: case["face"].as_u64().unwrap() as usize, from: f("from"), to: f("to"), arc: case["arc"].as_bool().unwrap_or(false) };
+        let t = case["t"].as_f64().unwrap_or(0.5);
+        let h = case["h"].as_f64().unwrap_or(1e-7);
+        // a window of a few thousand steps around the recorded parameter
+        let w = 4000.0 * h / sw.length();
+        return run_sweep(&sw, h, Some(((t - w).max(0.0), (t + w).min(1.0)))).2;
+    }
     let a = case["q"].as_array().unwrap();
     let q = [a[0].as_f64().unwrap(), a[1].as_f64().unwrap()];
     let face = case["face"].as_u64().unwrap() as usize;
